@@ -52,6 +52,7 @@ func __upd[K comparable, V any](m gmap[K, V], k K, v V) gmap[K, V] { return m }
 func __del[K comparable, V any](m gmap[K, V], k K) gmap[K, V] { return m }
 func __emptymap[K comparable, V any]() gmap[K, V] { return nil }
 func __idx() int { return 0 }
+func __iter() int { return 0 }
 func __eq[T any](a, b T) bool { return true }
 func __called(name string) bool { return true }
 func __lastret(name string, i int) any { return nil }
@@ -106,6 +107,8 @@ type Program struct {
 	CInfo    *types.Info
 	desigCache map[string]*Clause
 	contractKeyCache map[*Contract]map[string]bool
+	// Memo: heap key -> ghost predicate method (a *FuncInfo in the ghost file) constraining the memo cell
+	Memo map[string]*FuncInfo
 }
 
 var DefaultPatterns = []string{"./src/common", "./src/peers", "./src/crypto/keys", "./src/crypto", "./src/hashgraph", "./src/node", "./src/node/state", "./src/net", "./src/proxy", "./src/proxy/inmem", "./src/proxy/socket/app", "./src/proxy/socket/babble"}
@@ -163,7 +166,7 @@ func Load(repo string, patterns []string) (*Program, error) {
 	}
 	for _, p := range pkgs {
 		for _, e := range p.Errors {
-			if strings.Contains(e.Error(), GhostFileName) && strings.Contains(e.Error(), "imported and not used") {
+			if strings.Contains(e.Error(), GhostFileName) && (strings.Contains(e.Error(), "imported and not used") || (strings.Contains(e.Error(), "imported as") && strings.Contains(e.Error(), "not used"))) {
 				continue
 			}
 			prog.Errors = append(prog.Errors, e.Error())
@@ -239,6 +242,28 @@ func Load(repo string, patterns []string) (*Program, error) {
 		}
 	}
 	NewProgramState(prog)
+	prog.Memo = map[string]*FuncInfo{}
+	for pkgPath, pc := range prog.PC {
+		p := prog.Pkgs[pkgPath]
+		for _, m := range pc.Memos {
+			obj := p.Types.Scope().Lookup(m.Type)
+			if obj == nil || structOf(obj.Type()) == nil {
+				return nil, fmt.Errorf("%s: memo: no struct type %s (hint-mismatch)", m.Line, m.Type)
+			}
+			su := structOf(obj.Type())
+			var fv *types.Var
+			for i := 0; i < su.NumFields(); i++ {
+				if su.Field(i).Name() == m.Field {
+					fv = su.Field(i)
+				}
+			}
+			pred := prog.ByKey[pkgPath+":"+m.Type+"."+m.Pred]
+			if fv == nil || pred == nil {
+				return nil, fmt.Errorf("%s: memo %s.%s %s: field or predicate not found (hint-mismatch)", m.Line, m.Type, m.Field, m.Pred)
+			}
+			prog.Memo[fieldKeyName(obj.Type(), fv)] = pred
+		}
+	}
 	return prog, nil
 }
 
